@@ -122,7 +122,7 @@ def run(ctx):
         for bb, t in b.calls():
             from ..facts import callee_name
             if callee_name(t) == B + "::play_unchecked":
-                callers.append(k)
+                callers.append(k.split("::{closure")[0])
     ctx.note("callers of play_unchecked in the library: %s" % sorted(set(callers)))
     ctx.check(B + "::try_play" in callers, "unchecked-reached-from-try_play", "try_play no longer reaches play_unchecked")
     # "succeeds exactly when the move is legal": the guard's own meaning (C04 owns these rules)
